@@ -66,11 +66,38 @@ def dim_transform_st(draw, var, part, allow_view=True):
                "both": bool(var.get("view_insertions")) and "insertions" in t}
 
 
+def _add_derived(draw, var):
+    """Insert one more derived item (engine.survey.add_derived_item allows only one)."""
+    from engine.survey import add_derived_item
+    view = var.get("view_insertions") or []
+    n_before = len(var["items"])
+    add_derived_item(draw, var)
+    new = [it for it in var["items"] if it.get("derived")]
+    # unique alias / name / ids for the second and later derived items
+    for k, it in enumerate(new):
+        it["alias"] = "%s_d%d" % (var["alias"], k)
+        it["sid"] = "%s#%d" % (it["name"], k)
+        it["eid"] = 50 + k
+    var["view_insertions"] = view + (var.get("view_insertions") or [])
+    # anchors must reference non-derived items only
+    base_aliases = [it["alias"] for it in var["items"] if not it.get("derived")]
+    for it in new:
+        a = it.get("anchor")
+        if isinstance(a, dict) and a.get("alias") not in base_aliases:
+            a["alias"] = base_aliases[0]
+    return len(var["items"]) - n_before
+
+
 @st.composite
 def case_st(draw, shapes):
     sc = draw(scen.scenario_st(shapes, measure="none", max_valid=5, allow_order_key=False,
                                weight_kinds=("none", "int", "zeroheavy")))
     sv, q = sc["survey"], sc["query"]
+    # --- derived (zz9-computed) MR items with top / bottom / before / after anchors
+    for var in sv["vars"].values():
+        if var["type"] == "mr":
+            for _ in range(draw(st.integers(0, 2))):
+                _add_derived(draw, var)
     names = ["rows_dimension", "columns_dimension"][: len(q["dims"][-2:])]
     tx, meta = {}, {}
     for name, d in zip(names, q["dims"][-2:]):
@@ -91,10 +118,11 @@ def expected_for(odim, meta, empty_idxs, drop_subtotals):
     valid_ids = odim.keys if odim.kind in ("cat", "ca_cats") else []
     explicit = meta["explicit"]
     ref_list = _refs(odim)
-    toks = spec_order.anchored_tokens(
-        ref_list if odim.kind not in ("cat", "ca_cats") else valid_ids,
-        meta["insertions"] if odim.kind in ("cat", "ca_cats") else [],
-        explicit, hidden, drop_subtotals)
+    if odim.kind in ("mr", "ca_items", "numarr"):
+        toks = spec_order.array_tokens(odim.var["items"], explicit, hidden)
+    else:
+        toks = spec_order.anchored_tokens(
+            valid_ids, meta["insertions"], explicit, hidden, drop_subtotals)
     vins = spec_order.valid_insertions(
         meta["insertions"] if odim.kind in ("cat", "ca_cats") else [], valid_ids)
     return toks, vins
@@ -106,8 +134,16 @@ def _refs(odim):
     return [it["alias"] for it in odim.var["items"]]
 
 
+def _hidden(odim, meta, empty_idxs):
+    refs = [str(x) for x in _refs(odim)]
+    hidden = set(i for i, r in enumerate(refs) if r in set(meta["hidden_refs"]))
+    if meta["prune"]:
+        hidden |= set(empty_idxs)
+    return hidden
+
+
 def check_dimension(rec, which, odim, meta, empty_idxs, drop_subtotals, got_signed, got_bogus,
-                    labels, codes, nontrivial=True):
+                    labels, codes, nontrivial=True, payload_order=None):
     toks, vins = expected_for(odim, meta, empty_idxs, drop_subtotals)
     m = len(vins)
     want = spec_order.signed(toks, m)
@@ -143,6 +179,18 @@ def check_dimension(rec, which, odim, meta, empty_idxs, drop_subtotals, got_sign
     rec.compared()
     if [str(x) for x in codes] != [str(x) for x in want_codes]:
         rec.violation("%s codes %r, expected %r" % (which, list(codes), want_codes), "codes")
+    # --- payload_order (rows only): the anchored PAYLOAD order in ins_N rendering, whatever
+    # --- explicit order is in force; judged when the insertions come from a single source
+    if payload_order is not None and not meta.get("both"):
+        ptoks = (spec_order.array_tokens(odim.var["items"], None, _hidden(odim, meta, empty_idxs))
+                 if odim.kind in ("mr", "ca_items", "numarr") else
+                 spec_order.anchored_tokens(odim.keys, meta["insertions"], None,
+                                            _hidden(odim, meta, empty_idxs), False))
+        want_po = [t[1] if t[0] == "el" else "ins_%s" % numbers[t[1]] for t in ptoks]
+        rec.compared()
+        if [str(x) for x in payload_order] != [str(x) for x in want_po]:
+            rec.violation("%s payload_order %r, anchored payload order is %r" % (
+                which, list(payload_order), want_po), "payload-order")
     # --- ins_N rendering names the same sequence
     want_bogus = [t[1] if t[0] == "el" else "ins_%s" % numbers[t[1]] for t in toks]
     if got_bogus is not None:
@@ -181,7 +229,7 @@ def judge(case, rec):
         emp = empty_strand_rows(orc)
         gb = _bogus(part.row_order, m, rec, "rows")()
         check_dimension(rec, "strand rows", orc.rows, m, emp, False, part.row_order(), gb,
-                        part.row_labels, part.row_codes)
+                        part.row_labels, part.row_codes, payload_order=part.payload_order)
         return
     er, ec = empty_rows(orc), empty_cols(orc)
     mr_, mc_ = meta["rows_dimension"], meta["columns_dimension"]
@@ -189,7 +237,7 @@ def judge(case, rec):
     drop_c = mr_["prune"] and len(er) == orc.rows.n
     gb = _bogus(part.row_order, mr_, rec, "rows")()
     check_dimension(rec, "rows", orc.rows, mr_, er, drop_r, part.row_order(), gb,
-                    part.row_labels, part.row_codes)
+                    part.row_labels, part.row_codes, payload_order=part.payload_order)
     gb = _bogus(part.column_order, mc_, rec, "columns")()
     check_dimension(rec, "columns", orc.cols, mc_, ec, drop_c, part.column_order(), gb,
                     part.column_labels, part.column_codes)
